@@ -93,23 +93,38 @@ def _classify_param_source(fn: FuncInfo, expr: ast.expr) -> str | None:
         if "shared_parameters" in la:
             return "shared"
         if la == "get" and expr.args and const_str(expr.args[0]) == "parameters":
-            recv = unparse(expr.func.value) if isinstance(expr.func, ast.Attribute) else ""
-            return "shared" if "path_item" in recv else "op"
+            recv = expr.func.value if isinstance(expr.func, ast.Attribute) else None
+            # receiver: the (resolved) operation definition vs the path item.  Decide by provenance, not by name.
+            texts = canon(fn, recv) if recv is not None else set()
+            if any("resolve_operation(" in t or "_resolve_operation(" in t for t in texts) or (isinstance(recv, ast.Name) and recv.id in ("operation", "resolved", "entry", "definition")):
+                return "op"
+            if any("resolve_path_item(" in t or "_resolve_path_item(" in t for t in texts) or (isinstance(recv, ast.Name) and "path_item" in recv.id):
+                return "shared"
+            return None
     return None
 
 
 def _consumer_policy(P: Project) -> str | None:
     fn = P.func("specs/openapi/parameters.py:parameters_to_json_schema")
+    # the mapping returned under the "properties" key
+    pv = None
+    for r in simple_return_expr(fn):
+        if isinstance(r, ast.Dict):
+            for k, v in zip(r.keys, r.values):
+                if const_str(k) == "properties" and isinstance(v, ast.Name):
+                    pv = v.id
+    if pv is None:
+        return None
     for n in walk_body(fn.node):
         if isinstance(n, ast.For) and dotted(n.iter) == "parameters":
-            stores = [s for s in iter_stmts(n.body) if isinstance(s, ast.Assign) and any(isinstance(t, ast.Subscript) and dotted(t.value) == "properties" for t in s.targets)]
+            stores = [s for s in iter_stmts(n.body) if isinstance(s, ast.Assign) and any(isinstance(t, ast.Subscript) and dotted(t.value) == pv for t in s.targets)]
             if not stores:
                 return None
             s = stores[0]
             p = parent(s)
             if p is n:
                 return "last-wins"
-            if isinstance(p, ast.If) and "not in properties" in unparse(p.test):
+            if isinstance(p, ast.If) and any(isinstance(c, ast.Compare) and isinstance(c.ops[0], ast.NotIn) and dotted(c.comparators[0]) == pv for c in ast.walk(p.test)):
                 return "first-wins"
             return None
     return None
@@ -293,7 +308,8 @@ def r4_no_drop(chk: Check) -> None:
         n_sp += 1
         ys = [y for s in h.body for y in walk_local(s) if isinstance(y, ast.Yield)]
         construct = f"except {', '.join(classes)} -> yield Err"
-        good = any(isinstance(y.value, ast.Call) and last_attr(y.value) in ("_into_err", "Err") and h.name and h.name in names_in(y.value) and "path" in names_in(y.value) for y in ys)
+        path_vars = {x.id for a in ancestors(h) if isinstance(a, ast.For) and pmatch("$p.items()", a.iter) is not None and isinstance(a.target, ast.Tuple) and a.target.elts and isinstance(a.target.elts[0], ast.Name) for x in [a.target.elts[0]]}
+        good = any(isinstance(y.value, ast.Call) and last_attr(y.value) in ("_into_err", "Err") and h.name and h.name in names_in(y.value) and (path_vars & names_in(y.value)) for y in ys)
         if good:
             chk.ok("C08.R4", fn, construct, "", fn.loc(h))
         elif not ys:
@@ -303,7 +319,11 @@ def r4_no_drop(chk: Check) -> None:
     if n_sp < 2:
         chk.violation("C08.R4", fn, "two SCHEMA_PARSING_ERRORS handlers (per operation, per path item)", f"only {n_sp} remain: parsing errors now escape the iterator or abort the remaining operations", fn.loc())
     # the per-operation handler is inside the per-method loop so one broken operation does not hide its siblings
-    inner = [h for h in hs if any(isinstance(a, ast.For) and "path_item.items()" in unparse(a.iter) for a in ancestors(h))]
+    # nesting: the per-operation handler sits inside the inner of the two `for .. in <mapping>.items()` loops
+    def items_loops(h_: ast.AST) -> int:
+        return sum(1 for a in ancestors(h_) if isinstance(a, ast.For) and pmatch("$p.items()", a.iter) is not None)
+
+    inner = [h for h in hs if items_loops(h) >= 2]
     chk.decide(bool(inner), "C08.R4", fn, "per-operation handler inside the method loop", "one malformed operation aborts all other methods of the same path", fn.loc())
     ie = P.func(f"{OAS}:BaseOpenAPISchema._into_err")
     rets = simple_return_expr(ie)
@@ -320,17 +340,20 @@ def r5_yaml(chk: Check) -> None:
     cm = P.func("core/deserialization.py:get_yaml_loader.construct_mapping")
     key_rule = None
     for n in walk_body(cm.node):
-        if isinstance(n, ast.If) and "key_node.tag" in unparse(n.test):
+        if isinstance(n, ast.If) and isinstance(n.test, ast.Compare) and (m := pmatch("$k.tag", n.test.left)) is not None:
             t = n.test
-            if isinstance(t, ast.Compare) and const_str(t.comparators[0]) == "tag:yaml.org,2002:str":
+            kn = name_of(m, "k")
+            if const_str(t.comparators[0]) == "tag:yaml.org,2002:str" and kn:
                 raw_branch, cons_branch = (n.body, n.orelse) if isinstance(t.ops[0], ast.NotEq) else (n.orelse, n.body)
-                raw_ok = any(isinstance(s, ast.Assign) and unparse(s.value) == "key_node.value" for s in raw_branch)
-                cons_ok = any(isinstance(s, ast.Assign) and "construct_object(key_node" in unparse(s.value) for s in cons_branch)
+                raw_ok = any(isinstance(s, ast.Assign) and unparse(s.value) == f"{kn}.value" for s in raw_branch)
+                cons_ok = any(isinstance(s, ast.Assign) and f"construct_object({kn}" in unparse(s.value) for s in cons_branch)
                 key_rule = raw_ok and cons_ok
     chk.decide(key_rule, "C08.R5", cm, "non-str key tag => scalar text", "numeric / boolean-looking mapping keys (status codes, on/off) are converted to non-string keys", cm.loc())
-    installs = any(isinstance(n, ast.Assign) and unparse(n.targets[0]) == "cls.construct_mapping" and unparse(n.value) == "construct_mapping" for n in walk_body(loader.node))
+    rets_l = [r.id for r in simple_return_expr(loader) if isinstance(r, ast.Name)]
+    lv = rets_l[0] if rets_l else "cls"
+    installs = any(isinstance(n, ast.Assign) and unparse(n.targets[0]) == f"{lv}.construct_mapping" and unparse(n.value) == "construct_mapping" for n in walk_body(loader.node))
     chk.decide(installs, "C08.R5", loader, "custom construct_mapping installed on the loader", "the loader no longer uses the key-preserving construct_mapping", loader.loc())
-    ts = [n for n in walk_body(loader.node) if isinstance(n, ast.Assign) and unparse(n.targets[0]) == "cls.yaml_implicit_resolvers"]
+    ts = [n for n in walk_body(loader.node) if isinstance(n, ast.Assign) and unparse(n.targets[0]) == f"{lv}.yaml_implicit_resolvers"]
     good = bool(ts) and "tag:yaml.org,2002:timestamp" in unparse(ts[0].value, 600) and any(isinstance(c, ast.Compare) and isinstance(c.ops[0], ast.NotEq) and const_str(c.comparators[0]) == "tag:yaml.org,2002:timestamp" for c in ast.walk(ts[0].value))
     chk.decide(good, "C08.R5", loader, "timestamp tag removed from implicit resolvers", "date-like scalars are turned into date objects again", loader.loc())
     dy = P.func("core/deserialization.py:deserialize_yaml")
